@@ -1,6 +1,7 @@
 import Orca.Lemmas.SemBranch
 import Orca.Lemmas.SpecialFlat
 import Orca.Lemmas.StackSpec
+import Orca.Lemmas.StackFull
 /-!
 # C20 — semantic-after probes fire exactly once after the instruction
 
@@ -140,5 +141,33 @@ theorem c20_flat_every_plan (f : Func) (hsp : f.hasSpecial = true) (hentry : f.e
     (hp : ∀ x ∈ f.body, Plain x) (out : List Tok) (hs : specRun (f.body.length - 1) 0 [{}] f.body = some out) :
     lower f = (out, f.added) :=
   lower_eq_spec f hsp hentry hexit hp out hs
+
+/-- **Semantic-after probes on branches in every plan (flat).** For every plan — several flagged branches, targeting the same or
+    different constructs, next to block-level probes, alternates and function-level code — the encoded body is the one `specRunF`
+    computes: a fresh i32 flag per flagged branch (`i32.const 1; local.set f` in front of it, `i32.const 0; local.set f` behind it, and
+    for `br_if` also the probe itself behind that, for the fall-through), and the probe, guarded by the flag, behind the `end` of every
+    construct the branch may leave to (`parkAllF`: one frame per target of a `br_table`; `endAfter`: the guarded bodies in front of the
+    unguarded semantic-after code of the construct). A target that is the function's own label addresses the function body's frame,
+    whose code would stand behind the final `end` and is not emitted — finding F15, visible here as a property of the machine. -/
+theorem c20_flat_branch_probes_every_plan (f : Func) (hsp : f.hasSpecial = true) (hp : ∀ x ∈ f.body, PlainF x) (out : List Tok)
+    (nlf : Nat) (hs : specRunF (f.body.length - 1) (entryToks f) f.exit 0 [{}] none f.nlocals f.body = some (out, nlf)) :
+    lower f = (out, f.added + (nlf - f.nlocals)) :=
+  lower_eq_specF f hsp hp out nlf hs
+
+/-! non-vacuity (decided): two flagged branches leaving the same block (locals 5 and 6): the guarded bodies are chained `if … else
+    … end end` behind the block's `end`; a `br 1` out of the function from inside a block parks at the function's own frame and its body
+    is not emitted (F15) -/
+private def mkI20 (t : Tok) (k : Kind) : Instr := { tok := t, kind := k }
+set_option maxRecDepth 20000 in
+example :
+    let body : List Instr :=
+      [mkI20 "block" .block, { mkI20 "br 0" (.br 0) with semAfter := ["S1"] }, { mkI20 "br_if 0" (.brIf 0) with semAfter := ["S2"] },
+       { mkI20 "br 1" (.br 1) with semAfter := ["LOST"] }, mkI20 "end" .end_, mkI20 "end" .end_]
+    let f : Func := { body := body, hasSpecial := true, nlocals := 5 }
+    lower f = (["block", "i32.const:1", "local.set:5", "br 0", "i32.const:0", "local.set:5",
+                "i32.const:1", "local.set:6", "br_if 0", "i32.const:0", "local.set:6", "S2",
+                "i32.const:1", "local.set:7", "br 1", "i32.const:0", "local.set:7",
+                "end", "local.get:5", "if", "S1", "else", "local.get:6", "if", "S2", "end", "end", "end"], 3) := by
+  decide
 
 end Orca.Lower
